@@ -18,6 +18,7 @@ import (
 	"fmt"
 	"net/url"
 	"regexp"
+	"strings"
 
 	"github.com/oxia-db/oxia/common/compare"
 	"github.com/oxia-db/oxia/common/constant"
@@ -334,6 +335,7 @@ func secondaryIndexGet(req *proto.GetRequest, db kv.DB) (*proto.GetResponse, err
 func doSecondaryGet(db kv.DB, req *proto.GetRequest) (primaryKey string, secondaryKey string, err error) {
 	indexName := *req.SecondaryIndexName
 	searchKey := fmt.Sprintf(secondaryIdxRangePrefixFormat, indexName, req.Key)
+	indexPrefix := fmt.Sprintf(secondaryIdxRangePrefixFormat, indexName, "")
 
 	it, err := db.KeyIterator()
 	if err != nil {
@@ -351,6 +353,18 @@ func doSecondaryGet(db kv.DB, req *proto.GetRequest) (primaryKey string, seconda
 
 	for it.Valid() {
 		itKey := it.Key()
+		if !strings.HasPrefix(itKey, indexPrefix) {
+			// The iterator has left the requested index: the keys of one index are contiguous, so
+			// either there is no match, or (FLOOR/LOWER positioned past the end of the index) the
+			// match is the last entry of the index.
+			primaryKey, secondaryKey = "", ""
+			if (req.ComparisonType == proto.KeyComparisonType_FLOOR || req.ComparisonType == proto.KeyComparisonType_LOWER) &&
+				compare.CompareWithSlash([]byte(itKey), []byte(indexPrefix)) > 0 {
+				it.Prev()
+				continue
+			}
+			return "", "", nil
+		}
 		primaryKey, secondaryKey, err = secondaryIndexPrimaryAndSecondaryKey(itKey)
 		if err != nil && !errors.Is(err, errFailedToParseSecondaryKey) {
 			return "", "", err
